@@ -373,6 +373,107 @@ def _conditional(m, lines, obl, extra):
                 obl[l].setdefault("conditional", []).append(reason_hard)
 
 
+def _propagate(m, lines, obl, extra):
+    """Fourth pass: conditional marks across calls.  Verification is modular: a caller is checked against the callee's
+    CONTRACT.  If a postcondition clause group of a callee failed (or is itself only conditionally proved), every
+    caller obligation whose proof uses that clause is proved from something that does not hold on this tree.  For each
+    function with such clause groups: a variant of the file without them, each caller (textual: `name(` occurs in its
+    body) re-verified alone; obligations that fail then and were ok become CONDITIONAL.  Repeated until nothing
+    changes (a caller's own postcondition that became conditional is handled in the next round)."""
+    rs = m["rs"]
+    vpath = rs[:-3] + "_prop.rs"
+    vfile = os.path.basename(vpath)
+    fns = list(m["fnmap"])
+
+    def header(s_, e_):
+        region = []
+        for ln in range(s_, e_ + 1):
+            st = lines[ln - 1].strip()
+            if ln > s_ and (st == "{" or st.startswith("{")):
+                break
+            region.append(ln)
+        return region
+    done = set()
+    for _round in range(6):
+        changed = False
+        for (s_, e_, fk) in fns:
+            region = header(s_, e_)
+            labs = {m["linemap"].get(str(ln)) for ln in region} - {None}
+            bad = set()
+            for l in labs:
+                if l not in obl or obl[l]["kind"] != "clause":
+                    continue
+                if obl[l].get("conditional"):
+                    bad.add(l)
+                elif not obl[l]["discharged"] and any(e.get("function") == fk and "postcondition" in (e.get("message") or "")
+                                                      for e in obl[l]["errors"]):
+                    bad.add(l)
+            key = (fk, frozenset(bad))
+            if not bad or key in done:
+                continue
+            done.add(key)
+            short = fk.split("::")[-1]
+            pat = re.compile(r"(?<![A-Za-z0-9_])%s\s*(::<[^>]*>)?\s*\(" % re.escape(short))
+            callers = []
+            for (s2, e2, g) in fns:
+                if g == fk:
+                    continue
+                body_start = header(s2, e2)[-1] + 1
+                if any(pat.search(lines[k - 1]) for k in range(body_start, e2 + 1)):
+                    callers.append(g)
+            if not callers:
+                continue
+            drop = {ln for ln in region if m["linemap"].get(str(ln)) in bad}
+            var = ["" if (k + 1) in drop else l for k, l in enumerate(lines)]
+            with open(vpath, "w") as f:
+                f.write("\n".join(var) + "\n")
+            why = "uses clause(s) %s of the contract of %s, which failed or are only conditionally proved on this tree" % (
+                ", ".join(sorted(bad)), fk)
+            for g in callers:
+                res = _run_verus(vpath, list(extra) + ["--verify-function", g, "--verify-root"])
+                grange = [(s2, e2) for (s2, e2, g2) in fns if g2 == g][0]
+                hard = False
+                hit = set()
+                for d in res["diags"]:
+                    c = classify(d)
+                    if c == "frontend":
+                        raise RuntimeError("propagation variant for %s does not compile: %s" % (fk, (d.get("message") or "")[:200]))
+                    if c == "resource":
+                        hard = True
+                        continue
+                    if c != "verif":
+                        continue
+                    spans = [x for x in (resolve_span(sp, vfile) for sp in d.get("spans", [])) if x is not None]
+                    clause = [sp for sp in spans if (sp.get("label") or "").startswith("failed this ")]
+                    prim = clause or [sp for sp in spans if sp.get("is_primary")] or spans
+                    lab = None
+                    for sp in prim:
+                        for ln in range(sp["line_start"], sp["line_end"] + 1):
+                            if m["linemap"].get(str(ln)) in obl:
+                                lab = m["linemap"][str(ln)]
+                                break
+                        if lab:
+                            break
+                    if lab is None:
+                        lab = "%s.body" % g if ("%s.body" % g) in obl else None
+                        hard = True      # a body failure in the caller masks the rest of that caller
+                    if lab:
+                        hit.add(lab)
+                if hard:
+                    for ln in range(grange[0], grange[1] + 1):
+                        l2 = m["linemap"].get(str(ln))
+                        if l2 in obl:
+                            hit.add(l2)
+                    if ("%s.body" % g) in obl:
+                        hit.add("%s.body" % g)
+                for lab in hit:
+                    if obl[lab]["discharged"] and why not in obl[lab].get("conditional", []):
+                        obl[lab].setdefault("conditional", []).append(why)
+                        changed = True
+        if not changed:
+            break
+
+
 def verify_unit(unit, canary=True, extra=()):
     r = UnitResult()
     r.unit = unit
@@ -495,6 +596,7 @@ def verify_unit(unit, canary=True, extra=()):
         try:
             _unmask(m, lines, obl, extra)
             _conditional(m, lines, obl, extra)
+            _propagate(m, lines, obl, extra)
         except Exception as e:          # the passes can only ADD failures; if one breaks, say so instead of hiding it
             frontend.append("unmasking pass failed: %r" % (e,))
     r.obligations = obl
